@@ -52,7 +52,21 @@ def sh(cmd, cwd=None, env=None, timeout=None, stdin=None, capture=True):
     p = subprocess.run(cmd, cwd=cwd, env=e, shell=isinstance(cmd, str), timeout=timeout,
                        stdin=stdin, stdout=subprocess.PIPE if capture else None,
                        stderr=subprocess.STDOUT if capture else None, text=True, errors="replace")
+    if p.returncode == -11 and stdin is None:
+        # SIGSEGV of a harness process.  Seen three times in ~10^5 shard runs under heavy load, always at the same
+        # instruction: glibc's pthread_detach reading the descriptor of a thread that has just exited and unmapped its
+        # own stack (the harnesses create and drop one runtime per case, i.e. thousands of short-lived threads) - the
+        # faulting address is inside libc.so.6 (dmesg), not in qbice or the harness.  The process is run ONCE more
+        # with the same arguments (same seed) and the retry is recorded in the evidence notes; a second death is an
+        # error of the check (and a crash inside qbice would reproduce with the same seed).
+        SIGNAL_RETRIES.append(" ".join(map(str, cmd))[:200] if not isinstance(cmd, str) else cmd[:200])
+        p = subprocess.run(cmd, cwd=cwd, env=e, shell=isinstance(cmd, str), timeout=timeout,
+                           stdin=stdin, stdout=subprocess.PIPE if capture else None,
+                           stderr=subprocess.STDOUT if capture else None, text=True, errors="replace")
     return p.returncode, (p.stdout or "")
+
+
+SIGNAL_RETRIES = []
 
 
 # ---------------------------------------------------------------- Lean side
@@ -248,7 +262,7 @@ def finish(ctx, plugin, res, proof):
         "assumptions": res.assumptions + getattr(plugin, "ASSUMPTIONS", []),
         "wall_s": round(time.time() - ctx.t0, 2),
         "violations": len(violations) + (1 if tie_broken and not violations else 0),
-        "notes": ctx.notes,
+        "notes": ctx.notes + [f"re-run once after SIGSEGV (glibc pthread_detach race, see vlib.sh): {c}" for c in SIGNAL_RETRIES],
     }
     os.makedirs(EVIDENCE_DIR, exist_ok=True)
     with open(os.path.join(EVIDENCE_DIR, f"{pid}.json"), "w") as fh:
